@@ -447,14 +447,14 @@ const char * etcLdSoPreload_findNonCommentLineContainingString (const char * con
             lineStartPtr++;
         }
 
-        // For the dynamic loader a '#' starts a comment wherever it stands, so a comment line may be indented
-        const char * firstNonBlankPtr = lineStartPtr;
-        while ((*firstNonBlankPtr == ' ') || (*firstNonBlankPtr == '\t')) {
-            firstNonBlankPtr++;
+        // For the dynamic loader a '#' starts a comment wherever it stands: at the start of the line, after an indentation, or behind another library's entry
+        const char * hashPtr = lineStartPtr;
+        while ((hashPtr < foundStringPos) && (*hashPtr != '#')) {
+            hashPtr++;
         }
 
-        if (*firstNonBlankPtr != '#') {
-            // This is not a commented-out line, therefore a valid search string has been found
+        if (hashPtr == foundStringPos) {
+            // No '#' in front of the search string on its line: this mention is active, therefore a valid search string has been found
             return lineStartPtr;
         }
 
